@@ -190,8 +190,11 @@ func (m *machine) randomWrite(t *rapid.T) {
 	si := rapid.IntRange(0, len(m.w.Servers)-1).Draw(t, "server")
 	client := rapid.SampledFrom(regs.ClientRefs[:7]).Draw(t, "client")
 	fn := m.w.Servers[si].Writable
-	if rapid.IntRange(0, 3).Draw(t, "readonlyFn") == 0 {
+	switch rapid.IntRange(0, 5).Draw(t, "whichFn") {
+	case 0:
 		fn = m.w.Servers[si].ReadOnly
+	case 1:
+		fn = m.w.Servers[si].Unannounced // a function of the type the feature never announced
 	}
 	f := gen.ByFunction(fn)
 	shape := rapid.SampledFrom(listgen.ShapesFor(f)).Draw(t, "shape")
@@ -230,6 +233,14 @@ func (m *machine) bindThenWrite(t *rapid.T) {
 	}
 	m.ops = append(m.ops, fmt.Sprintf("bind:%v", ok))
 	m.write(t, pi, client, si, f, listgen.Full, rapid.Bool().Draw(t, "ack"), expect)
+	if rapid.IntRange(0, 2).Draw(t, "thenOtherFn") == 0 {
+		// the binding does not make functions writable that are read-only or were never announced
+		other := m.w.Servers[si].ReadOnly
+		if rapid.Bool().Draw(t, "unannounced") {
+			other = m.w.Servers[si].Unannounced
+		}
+		m.write(t, pi, client, si, gen.ByFunction(other), listgen.Full, true, "")
+	}
 }
 
 type entry struct {
